@@ -798,6 +798,43 @@ pub mod std {
             unimplemented!()
         }
 
+        /// read(2) until end of file on our File stand-in: appends the bytes from the current offset on.
+        pub trait Read: Sized {
+            fn read_to_end(&mut self, buf: &mut Vec<u8>, Tracked(w): Tracked<&mut World>) -> (r: Result<usize>)
+                requires
+                    old(w).inv(),
+                    old(self).readable_in(*old(w)),
+                ensures
+                    final(w).inv(),
+                    final(w).atime_only(*old(w)),
+                    final(w).kept(*old(w)) && final(w).listed == old(w).listed && final(w).published == old(w).published && final(w).now == old(w).now,
+                    final(w).opens == old(w).opens && final(w).steps == old(w).steps + 1,
+                    final(w).hard_faults == old(w).hard_faults + if r.is_err() { 1nat } else { 0nat },
+                    old(self).read_ok(*old(self), *final(self), old(buf)@, final(buf)@, *old(w), r),
+            ;
+
+            spec fn readable_in(&self, w: World) -> bool;
+
+            spec fn read_ok(&self, before: Self, after: Self, buf0: Seq<u8>, buf1: Seq<u8>, w0: World, r: Result<usize>) -> bool;
+        }
+
+        impl Read for std::fs::File {
+            open spec fn readable_in(&self, w: World) -> bool {
+                w.inodes.contains_key(self.ino())
+            }
+
+            open spec fn read_ok(&self, before: Self, after: Self, buf0: Seq<u8>, buf1: Seq<u8>, w0: World, r: Result<usize>) -> bool {
+                &&& after.ino() == before.ino()
+                &&& after.can_write() == before.can_write()
+                &&& (r.is_ok() ==> buf1 == buf0 + w0.inodes[before.ino()].content.skip(before.offset() as int))
+            }
+
+            #[verifier::external_body]
+            fn read_to_end(&mut self, buf: &mut Vec<u8>, Tracked(w): Tracked<&mut World>) -> (r: Result<usize>) {
+                unimplemented!()
+            }
+        }
+
         impl Seek for std::fs::File {
             open spec fn seek_ok(&self, before: Self, after: Self, pos: SeekFrom, r: Result<u64>) -> bool {
                 &&& after.ino() == before.ino()
